@@ -105,12 +105,27 @@ def expected(test, ins):
             out.append(str(acc))        # exclusive: rank 0 gets 0
             acc = wrap(ty, acc + xs[r])
         return out
-    if fam in ("bcast", "bcast_str", "bcast_vec"):
+    if fam in ("bcast", "bcast_str", "bcast_vec", "mpi_bcast"):
         root = int(f[-1])
         return [ins[root]] * n
+    if fam == "sendrecv":
+        return sendrecv_expected(ins, lambda s: s)
     if fam == "is_same":
         return ["1" if all(x == ins[0] for x in ins) else "0"] * n
     return None
+
+
+def sendrecv_expected(ins, xfer):
+    """ping-pong of the harness between ranks (2k, 2k+1): odd ranks print what they received, even ranks what came back"""
+    n, out = len(ins), []
+    for r in range(n):
+        if r % 2 == 1:
+            out.append(xfer(ins[r - 1]))
+        elif r + 1 < n:
+            out.append(xfer("_" + xfer(ins[r])[1:] + ins[r + 1][1:]))
+        else:
+            out.append(ins[r])
+    return out
 
 
 def model_line(test, ins):
@@ -135,9 +150,11 @@ def model_line(test, ins):
         return f"bcast {f[2]} {v}"
     if fam in ("bcast_str", "bcast_vec"):
         return f"bcastser {f[1]} {v}"
+    if fam == "mpi_bcast":
+        return f"mpibcastser {f[1]} {v}"
     if fam == "is_same":
         return f"issame {v}"
-    return "unknown"
+    return None
 
 
 def pieces(test, token):
@@ -165,7 +182,7 @@ POLICIES = ["uniform", "racer", "late", "burst", "starve"]
 
 def make_jobs(tier, seed):
     jobs = []
-    rounds = 3 if tier == "quick" else 10
+    rounds = 6 if tier == "quick" else 12
     nseeds = 1 if tier == "quick" else 3
     for i, (N, P) in enumerate(layouts(tier)):
         for k in range(nseeds):
@@ -238,7 +255,28 @@ def eval_vals(job, sr, res, use_model=True, only=None):
                                     "case": dict(base, verdict=sr.verdict, blocked=sr.blocked, last_test=last, stderr=sr.stderr[-400:])})
     keys = [k for k in order if tests[k]["in"] is not None and (only is None or k == tuple(only))]
     mlines = [model_line(k[1], tests[k]["in"]) for k in keys]
-    mout = C.model("coll", mlines) if (use_model and keys) else [None] * len(keys)
+    if use_model and keys:
+        mout = C.model("coll", [l or "typeof" for l in mlines])
+        sr_keys = [i for i, k in enumerate(keys) if k[1] == "sendrecv"]
+        if sr_keys:                     # composed from the model's point-to-point transfer `xfer` (two batched passes)
+            memo = {}
+
+            def batch(toks):
+                toks = sorted(set(t for t in toks if t not in memo))
+                if toks:
+                    for t, o in zip(toks, C.model("coll", ["xfer " + t for t in toks])):
+                        memo[t] = o
+            batch([t for i in sr_keys for t in tests[keys[i]]["in"]])
+            second = []
+            for i in sr_keys:
+                ins_i = tests[keys[i]]["in"]
+                second += ["_" + memo[ins_i[r]][1:] + ins_i[r + 1][1:] for r in range(0, len(ins_i) - 1, 2)]
+            batch(second)
+            for i in sr_keys:
+                mout[i] = " ".join(sendrecv_expected(tests[keys[i]]["in"], lambda t: memo[t]))
+                mlines[i] = "xfer"
+    else:
+        mout = [None] * len(keys)
     done = 0
     for key, mo in zip(keys, mout):
         rnd, test = key
